@@ -196,12 +196,15 @@ deriving Repr
 
 inductive Err
   | modeRange | value | type | compilation | notImplemented | display | state | other
+  | modeMismatch | photonNumber | sampler | backend
 deriving DecidableEq, Repr, Inhabited
 
 def Err.toString : Err → String
   | .modeRange => "ModeRangeError" | .value => "ValueError" | .type => "TypeError"
   | .compilation => "CircuitCompilationError" | .notImplemented => "NotImplementedError"
   | .display => "DisplayError" | .state => "StateError" | .other => "Exception"
+  | .modeMismatch => "ModeMismatchError" | .photonNumber => "PhotonNumberError"
+  | .sampler => "SamplerError" | .backend => "BackendError"
 instance : ToString Err := ⟨Err.toString⟩
 
 namespace Circ
